@@ -112,7 +112,14 @@ def load_known():
     if not os.path.exists(path):
         return {"open": [], "fixed": []}
     with open(path) as fh:
-        return json.load(fh)
+        known = json.load(fh)
+    # maintenance aid: VF_IGNORE_KNOWN=id1,id2 runs as if those open entries did not exist, which yields a
+    # freshly shrunk input for an entry whose recorded minimal case stopped failing (never set by the
+    # registered commands)
+    skip = {x for x in os.environ.get("VF_IGNORE_KNOWN", "").split(",") if x}
+    if skip:
+        known["open"] = [e for e in known.get("open", []) if e.get("id") not in skip]
+    return known
 
 
 def match_known(open_entries, pid, sub, viol: Violation):
